@@ -796,7 +796,9 @@ func (c *Ctx) rulesR5misc(only string, a *coreAnchors) {
 						"the call closure keeps serving without sending on handlerEnd on this path: processHandlers is left waiting for the answer")
 				}
 			}
-			visit(hl)
+			for _, hf := range c.hostedFns(hl) {
+				visit(hf)
+			}
 			if n < 1 {
 				c.undecided("C08.ack: no `return true` found in the call closure of handlerLoop")
 			}
